@@ -203,6 +203,19 @@ def r3_type_order(ctx):
         has = ctx.repo.method(t.module, t.node, "_istype") is not None
         sub = ctx.repo.is_subclass(t.module, t.node, "UnitType")
         ctx.check(has and sub, t.module.relpath, t.name, "registered type subclasses UnitType and defines _istype")
+        if t.name == "StandardUnitType" or not has:
+            continue
+        # a special type is tried before the linear one, so what it claims is lost to linear conversion: it claims by
+        # membership in its own unit table, never by the spelling of a symbol (Bq, Bi and Ba start like B; Cd like C)
+        m_, c_, fn_ = ctx.repo.method(t.module, t.node, "_istype")
+        what = "a special unit type claims units by membership in its own table, not by the spelling of the symbol"
+        spelled = [norm(c) for c in ast.walk(fn_) if isinstance(c, ast.Call) and isinstance(c.func, ast.Attribute)
+                   and (c.func.attr in ("startswith", "endswith", "find", "lower", "upper", "fullmatch")
+                        or (c.func.attr in ("match", "search") and norm(c.func.value) == "re"))]
+        if spelled:
+            ctx.violated(m_.relpath, f"{c_.name}._istype", what, detail=spelled[0][:100], expected="membership in self.process")
+        else:
+            ctx.holds(m_.relpath, f"{c_.name}._istype", what)
 
 
 def _store_then_raise(stmts, stored, trail, out):
@@ -479,6 +492,9 @@ def r6_readonly_conversion(ctx):
     it converts (array magnitudes are shared objects): effect analysis shared with C07.R1."""
     from . import C07 as _C07
     _C07.r1_no_operand_mutation(ctx)
+    # `q *= r` has to be `q = q * r` (cancelled units folded by Quantity.__init__), `exp += e` a new Fraction: an
+    # in-place operator on a value class bypasses that and writes into exponents other quantities share (C07.R4)
+    _C07.r4_value_objects(ctx)
 
 
 RULES = [
